@@ -2915,14 +2915,13 @@ class WBEMConnection:  # pylint: disable=too-many-instance-attributes
                         conn_id=self.conn_id)
         else:
             # class-level invocation
-            for classpath, klass in objects:
-                if not isinstance(classpath, CIMClassName) or \
-                        not isinstance(klass, CIMClass):
+            for obj in objects:
+                if not isinstance(obj, tuple) or len(obj) != 2 or \
+                        not isinstance(obj[0], CIMClassName) or \
+                        not isinstance(obj[1], CIMClass):
                     raise CIMXMLParseError(
                         _format("Expecting tuple (CIMClassName, CIMClass) "
-                                "in result list, got tuple ({0}, {1})",
-                                classpath.__class__.__name__,
-                                klass.__class__.__name__),
+                                "in result list, got {0!A}", obj),
                         conn_id=self.conn_id)
         return objects
 
